@@ -281,7 +281,6 @@ func getLocalRateLimitFromHttpConnectionManager(hcm *v3httppb.HttpConnectionMana
 				return uint32(maxTokens.GetNumberValue()), uint32(tokensPerfill.GetNumberValue()), nil
 			}
 		}
-		return 0, 0, nil
 	}
 	return 0, 0, nil
 }
